@@ -317,7 +317,9 @@ def documentedNtuple : List (String × List String) :=
 def macPadded (sep : Char) (a : List Char) : List Char :=
   a ++ (List.replicate (5 - a.count sep) [sep, '0', '0']).flatten
 
-/-- IPv4 broadcast address: the address with every host bit set -/
-def broadcast (addr plen : Nat) : Nat := addr / 2 ^ (32 - plen) * 2 ^ (32 - plen) + (2 ^ (32 - plen) - 1)
+/-- `b` is the IPv4 broadcast address of `addr/plen`: every host bit (the low `32 - plen` bits)
+    is set, every other bit is the address's -/
+def IsBroadcast (addr plen b : Nat) : Prop :=
+  ∀ i, b.testBit i = (decide (i < 32 - plen) || addr.testBit i)
 
 end Psutil.C20.Spec
